@@ -805,6 +805,25 @@ def call_scripts(rng, thorough):
                 sc.expect(xs + [0] + xs)          # `l += [7]` rebinds the parameter: the caller's list is untouched
                 sc.tags = ["spread-order", where, order, n, "ok"]
                 out.append(sc.source({"tags": sc.tags}))
+    # an object pattern is processed item by item, left to right: a computed key may read a name that an earlier item of the
+    # same pattern has just bound
+    for mode, pre in ((":=", ""), ("=", "k := \"none\"\nv := 0\nrest := 0\n")):
+        sc = L.Script()
+        sc.stmt("o := {\"tag\": \"r\", \"r\": 3, \"s\": 4, \"none\": 9}")
+        if pre:
+            for ln in pre.strip().split("\n"):
+                sc.stmt(ln)
+        sc.stmt(f"{{\"tag\": k, [k][0]: v, ..rest}} {mode} o" if False else f"{{\"tag\": k, k: v, ..rest}} {mode} o")
+        sc.stmt("print(k)")
+        sc.expect("r")
+        sc.stmt("print(v)")
+        sc.expect(3)
+        sc.stmt("print(rest)")
+        sc.expect({"s": 4, "none": 9})
+        sc.stmt("print({\"tag\": k, k: v, rest..} == o)")
+        sc.expect(True)
+        sc.tags = ["computed-key-reads-earlier-binding", mode, "ok"]
+        out.append(sc.source({"tags": sc.tags}))
     for bad in ["1", "\"ab\"", "null", "{\"a\": 1}", "true"]:
         for form in ["print([1, q..])", "print([q..])", "f := fn (..r) { return r; }\nprint(f(1, q..))"]:
             sc = L.Script()
